@@ -86,6 +86,12 @@ func streamWF(c *Case) *WF {
 		cons.Params = []ParamSpec{ps}
 		cons.Outs[0].Pattern = "{i:a}.{p:x}.cons.o0"
 	}
+	if n == 1 && len(cons.Params) == 0 && t.Choose(simrt.StGen, 5, 0) == 1 {
+		// ... or a joined in-port (a sub-stream of header files) next to the streamed one
+		sh := srcNode(w, "srch", 1+t.Choose(simrt.StGen, 3, 0), "")
+		sub := addNode(w, Node{Name: "subh", Kind: KStreamToSub, Ins: []InSpec{{Name: "in", From: []Edge{{sh, "out"}}}}, Outs: []OutSpec{{Name: "substream"}}})
+		cons.Ins = append(cons.Ins, InSpec{Name: "h", From: []Edge{{sub, "substream"}}, Join: true, Sep: " "})
+	}
 	ci := addNode(w, cons)
 	if t.Choose(simrt.StGen, 2, 0) == 1 {
 		oneToOne(w, "post", Edge{ci, "o0"})
